@@ -1,8 +1,8 @@
 package scanner
 
 import (
-	rt "github.com/DDP-Projekt/Kompilierer/src/zzverif/rt"
 	"github.com/DDP-Projekt/Kompilierer/src/token"
+	rt "github.com/DDP-Projekt/Kompilierer/src/zzverif/rt"
 )
 
 // VerifSmoke2: every 2-byte source either is refused or scans into tokens ending in EOF.
